@@ -41,6 +41,19 @@ class InjectedFault(Exception):
     pass
 
 
+class InjectedOSFault(InjectedFault, PermissionError):
+    """What the operating system raises when it refuses to unlink a file (EACCES / EROFS / EBUSY ...): an OSError."""
+    def __str__(self):
+        return self.args[0] if self.args else ''
+
+
+def os_tick(ctl):
+    try:
+        ctl.tick('os.remove')
+    except InjectedFault as f:
+        raise InjectedOSFault(str(f)) from None
+
+
 class ConnProxy:
     """Delegates to a sqlite3.Connection; raises InjectedFault at the armed call."""
     def __init__(self, conn, ctl):
@@ -357,7 +370,8 @@ def check_signer(ctx, S, M, rng, w):
     """Obtain a signer in a random documented argument form and judge it."""
     kc = S.kc
     alive = [(idn, k) for idn, i in M.ids.items() for k in i['keys']]
-    form = rng.choice(['default', 'identity-name', 'identity-obj', 'key-name', 'key-obj', 'cert-name', 'deleted-key', 'shared-locator'])
+    form = rng.choice(['default', 'identity-name', 'identity-obj', 'key-name', 'key-obj', 'cert-name', 'deleted-key', 'shared-locator',
+                       'identity+key', 'identity+key', 'key+cert', 'identity+cert'])
     args = {}
     exp_key = None
     exp_loc = None
@@ -388,6 +402,32 @@ def check_signer(ctx, S, M, rng, w):
             args['cert'] = list(c) if form == 'cert-name' else kc[list(idn)][list(k)][list(c)]
             exp_key = k
             exp_loc = c
+        elif form in ('identity+key', 'key+cert', 'identity+cert'):
+            # several selectors at once (documented: the more specific one wins - certificate over key over identity); the less
+            # specific one points somewhere else whenever the store allows
+            if not alive:
+                return
+            idn, k = rng.choice(alive)
+            other_ids = [i for i in M.ids if i != idn] or [idn]
+            other_keys = [(i2, k2) for i2, k2 in alive if k2 != k] or [(idn, k)]
+            if form == 'identity+key':
+                i_sel = rng.choice(other_ids) if rng.random() < 0.5 else idn
+                args['identity'] = list(i_sel) if rng.random() < 0.6 else kc[list(i_sel)]
+                args['key'] = list(k) if rng.random() < 0.6 else kc[list(idn)][list(k)]
+                exp_key = k
+            else:
+                cs = list(M.ids[idn]['keys'][k]['certs'])
+                if not cs:
+                    return
+                c = rng.choice(cs)
+                args['cert'] = list(c)
+                exp_key, exp_loc = k, c
+                if form == 'key+cert':
+                    i2, k2 = rng.choice(other_keys)
+                    args['key'] = list(k2)
+                else:
+                    args['identity'] = list(rng.choice(other_ids))
+            ctx.event('signer-requested-with-several-selectors')
         elif form == 'deleted-key':
             gone = [k for k in M.deleted_keys if M.find_key(k) is None]
             if not gone:
@@ -830,7 +870,7 @@ def fault_sweep(ctx, rng):
                     M = Model()
 
                     def remove_hook(p, S=S):
-                        S.ctl.tick('os.remove')
+                        os_tick(S.ctl)
                         return orig_remove(p)
                     tpm_file_mod.os.remove = remove_hook
                     for pre in (('touch', A), ('touch', Bn), ('new_key', A, 'ec', None, 'kc')):
@@ -869,7 +909,7 @@ def run_history(ctx, rng, length, faults):
         M = Model()
 
         def remove_hook(p):
-            S.ctl.tick('os.remove')
+            os_tick(S.ctl)
             return orig_remove(p)
         tpm_file_mod.os.remove = remove_hook
         for step in range(length):
@@ -981,7 +1021,7 @@ def run(ctx):
     for i in range(n):
         run_history(ctx, rng, rng.randint(5, 40), faults=(i % 3 == 2))
     need = ['invariant-scan', 'signer-judged', 'operation-repeated', 'crash-reopen', 'op-del_key', 'op-del_identity', 'op-reopen',
-            'op-import_cert', 'signer-deleted-key-refused', 'new-key-with-empty-key-id', 'new-key-on-a-larger-curve', 'set-default-with-nonmember-name', 'signer-probe-around-default-change', 'several-stores-history', 'foreign-store-signer-refused']
+            'op-import_cert', 'signer-deleted-key-refused', 'new-key-with-empty-key-id', 'new-key-on-a-larger-curve', 'set-default-with-nonmember-name', 'signer-probe-around-default-change', 'signer-requested-with-several-selectors', 'several-stores-history', 'foreign-store-signer-refused']
     if ctx.shard == 0:
         need.append('fault-sweep-point')
     for k in need:
